@@ -74,7 +74,8 @@ def oracle_c01(rr: Any, spec: Dict[str, Any]) -> List[Violation]:
                 continue
         if y["mk"] == "valid":
             if n == 0:
-                if rr.outcome in ("returned", "horizon", "deadlock", "raised"):
+                if rr.outcome in ("returned", "horizon", "deadlock", "raised") or \
+                        (rr.outcome == "api-horizon" and y["t"] < spec.get("horizon", 0) - 5):
                     pos = order.index(d) + 1
                     kind = "message-dropped"
                     if N and pos == N + 1 and rr.outcome == "returned":
@@ -597,7 +598,7 @@ def _dur_total(beh: Dict[str, Any]) -> Optional[float]:
             continue
         if s == "never":
             return float("inf")
-        tot += s
+        tot += float(s[1:]) if isinstance(s, str) else s
     return tot
 
 
